@@ -496,6 +496,178 @@ theorem error_range_none_iff_no_tokens (ranges : List (Nat × Nat)) (cursor : Na
     · exact List.getLast?_eq_none_iff.1 h
   · intro h; subst h; simp
 
+/-! ## out of fuel: looks never move the real end of input, and every cursor step is an `Advance`
+
+Used by `Props/C12.lean` (`file_advances_cover_tokens`, `fuel_aware_eof_drops_tokens`). -/
+
+theorem looks_toks (ns : List Nat) (s : St) : (looks ns s).toks = s.toks := by
+  induction ns generalizing s with
+  | nil => rfl
+  | cons n ns ih => simp only [looks, ih, look_toks]
+
+theorem looks_cursor (ns : List Nat) (s : St) : (looks ns s).cursor = s.cursor := by
+  induction ns generalizing s with
+  | nil => rfl
+  | cons n ns ih => simp only [looks, ih, look_cursor]
+
+/-- a scan that only looks (`impl_has_trait`: `nth(0)`, `nth(1)`, … with no `advance`) is a parser
+function in the sense of `StepOK`, however long it is -/
+theorem looks_stepOK (ns : List Nat) : StepOK (looks ns) := by
+  induction ns with
+  | nil => exact StepOK.id
+  | cons n ns ih =>
+    have h : StepOK (fun s => looks ns ((fun s => (look s n).2) s)) := StepOK.comp (look_stepOK n) ih
+    exact h
+
+/-- **eof_unmoved_by_looks**: `Parser::eof()` (= `Input::eof`) gives the same answer after any number
+of `peek`/`nth` calls — in particular after a lookahead that has used up the fuel -/
+theorem eof_unmoved_by_looks (ns : List Nat) (s : St) : isEof (looks ns s) = isEof s := by
+  simp only [isEof, looks_toks, looks_cursor]
+
+/-- out of fuel the fuel-aware reading says "end of input" wherever the cursor is … -/
+theorem eofViaPeek_out_of_fuel (s : St) (h : s.fuel = 0) : (eofViaPeek s).1 = true := by
+  simp only [eofViaPeek, at_fst, peek, look_zero s 0 h, beq_self_eq_true]
+
+/-- … while with fuel left the two readings agree (the lexer never produces an `eof` token) -/
+theorem eofViaPeek_with_fuel (s : St) (h : s.fuel ≠ 0) (hk : EOF ∉ s.toks) :
+    (eofViaPeek s).1 = isEof s := by
+  simp only [eofViaPeek, at_fst, peek, look_pos s 0 h, kindAt, isEof, Nat.add_zero]
+  by_cases hc : s.cursor < s.toks.length
+  · have e : s.toks.getD s.cursor EOF = s.toks[s.cursor] := by
+      simp [List.getD, List.getElem?_eq_getElem hc]
+    have hm : s.toks[s.cursor] ∈ s.toks := List.getElem_mem hc
+    have hne : s.toks[s.cursor] ≠ EOF := fun h' => hk (h' ▸ hm)
+    rw [e]
+    have : decide (s.toks.length ≤ s.cursor) = false := by simp; omega
+    rw [this]
+    exact beq_false_of_ne hne
+  · have hl : s.toks.length ≤ s.cursor := by omega
+    have e : s.toks.getD s.cursor EOF = EOF := by
+      simp [List.getD, List.getElem?_eq_none hl]
+    rw [e]; simp [hl]
+
+/-- the cursor never runs ahead of the `Advance` events: every token the cursor has passed has an
+`Advance` event, which is what `build_tree` needs to put it into the tree -/
+def CursorCovered (s : St) : Prop := s.cursor ≤ s.advances
+
+/-- a parser function under which `CursorCovered` is invariant -/
+def KeepsCovered (f : St → St) : Prop := ∀ s, CursorCovered s → CursorCovered (f s)
+
+theorem init_covered (toks : List Kind) : CursorCovered (init toks) := Nat.le_refl 0
+
+theorem look_keepsCovered (n : Nat) : KeepsCovered (fun s => (look s n).2) := by
+  intro s h
+  have c := look_cursor s n
+  have a : (look s n).2.advances = s.advances := by
+    unfold look; split
+    · split <;> rfl
+    · rfl
+  show (look s n).2.cursor ≤ (look s n).2.advances
+  unfold CursorCovered at h
+  omega
+
+theorem looks_keepsCovered (ns : List Nat) : KeepsCovered (looks ns) := by
+  induction ns with
+  | nil => intro s h; exact h
+  | cons n ns ih => intro s h; exact ih _ (look_keepsCovered n s h)
+
+theorem advance_keepsCovered : KeepsCovered advance := by
+  intro s h
+  unfold CursorCovered at *
+  simp only [advance]
+  split <;> omega
+
+theorem advanceWithError_keepsCovered : KeepsCovered advanceWithError := by
+  intro s h
+  exact advance_keepsCovered { s with errors := s.errors + 1 } h
+
+theorem KeepsCovered.comp {f g : St → St} (hf : KeepsCovered f) (hg : KeepsCovered g) :
+    KeepsCovered (fun s => g (f s)) := fun s h => hg _ (hf s h)
+
+theorem eat_keepsCovered (k : Kind) : KeepsCovered (fun s => (eat s k).2) := by
+  intro s h
+  have hp : CursorCovered (atK s k).2 := look_keepsCovered 0 s h
+  simp only [eat]
+  cases hb : (atK s k).1 with
+  | true => simpa [hb] using advance_keepsCovered _ hp
+  | false => simpa [hb] using hp
+
+theorem expect_keepsCovered (k : Kind) : KeepsCovered (fun s => expect s k) := by
+  intro s h
+  have h1 : CursorCovered (eat s k).2 := eat_keepsCovered k s h
+  have h2 : CursorCovered (peek (eat s k).2).2 := look_keepsCovered 0 _ h1
+  simp only [expect]
+  cases hb : (eat s k).1 with
+  | true => simpa [hb] using h1
+  | false =>
+    simp only [hb, Bool.false_eq_true, if_false]
+    by_cases hc : ((peek (eat s k).2).1 == EOF || !shouldConsume (peek (eat s k).2).1) = true
+    · simp only [hc, if_true]
+      exact h2
+    · simp only [hc, Bool.false_eq_true, if_false]
+      exact advanceWithError_keepsCovered _ h2
+
+theorem dispatch_keepsCovered (bs : List ((Kind → Bool) × (St → St)))
+    (hbs : ∀ b ∈ bs, KeepsCovered b.2) : KeepsCovered (dispatch bs) := by
+  induction bs with
+  | nil => exact advanceWithError_keepsCovered
+  | cons b rest ih =>
+    obtain ⟨g, f⟩ := b
+    intro s h
+    have hp : CursorCovered (peek s).2 := look_keepsCovered 0 s h
+    simp only [dispatch]
+    by_cases hg : g (peek s).1 = true
+    · simp only [hg, if_true]
+      exact hbs (g, f) List.mem_cons_self _ hp
+    · simp only [hg, Bool.false_eq_true, if_false]
+      exact ih (fun b hb => hbs b (List.mem_cons_of_mem _ hb)) _ hp
+
+theorem runLoop_keepsCovered (stop : Option Kind) (body : St → St) (hb : KeepsCovered body) :
+    ∀ (m : Nat) (s r : St) (c : Nat), CursorCovered s → runLoop stop body m s = some (r, c) →
+      CursorCovered r := by
+  intro m
+  induction m with
+  | zero =>
+    intro s r c hs h
+    cases stop with
+    | none =>
+      simp only [runLoop] at h
+      split at h
+      · simp only [Option.some.injEq, Prod.mk.injEq] at h; rw [← h.1]; exact hs
+      · cases h
+    | some k =>
+      simp only [runLoop] at h
+      split at h
+      · simp only [Option.some.injEq, Prod.mk.injEq] at h; rw [← h.1]; exact look_keepsCovered 0 s hs
+      · cases h
+  | succ m ih =>
+    intro s r c hs h
+    cases stop with
+    | none =>
+      simp only [runLoop] at h
+      split at h
+      · simp only [Option.some.injEq, Prod.mk.injEq] at h; rw [← h.1]; exact hs
+      · cases hr : runLoop none body m (body s) with
+        | none => rw [hr] at h; cases h
+        | some rc =>
+          obtain ⟨r', c'⟩ := rc
+          rw [hr] at h
+          simp only [Option.map_some, Option.some.injEq, Prod.mk.injEq] at h
+          rw [← h.1]
+          exact ih (body s) r' c' (hb s hs) hr
+    | some k =>
+      simp only [runLoop] at h
+      split at h
+      · simp only [Option.some.injEq, Prod.mk.injEq] at h; rw [← h.1]; exact look_keepsCovered 0 s hs
+      · cases hr : runLoop (some k) body m (body (atK s k).2) with
+        | none => rw [hr] at h; cases h
+        | some rc =>
+          obtain ⟨r', c'⟩ := rc
+          rw [hr] at h
+          simp only [Option.map_some, Option.some.injEq, Prod.mk.injEq] at h
+          rw [← h.1]
+          exact ih (body (atK s k).2) r' c' (hb _ (look_keepsCovered 0 s hs)) hr
+
 end Goml.ParserFuel
 
 /-! ## round 11: the grammar functions themselves (`Model/Grammar.lean`)
